@@ -47,6 +47,7 @@ type SetGenOpts struct {
 	AllowSliced bool
 	PoolSize    int
 	CPs         []string
+	ChainBias   bool // later sets usually declare all earlier ones as previous
 	// Exclusive: pool indexes already used are avoided (no duplicates inside one set is always enforced).
 }
 
@@ -59,7 +60,7 @@ func GenSet(t *rapid.T, o SetGenOpts) SetSpec {
 		o.MaxObjs = 3
 	}
 	if o.PoolSize == 0 {
-		o.PoolSize = len(engine.Pool())
+		o.PoolSize = engine.NativePoolSize
 	}
 	if len(o.Classes) == 0 {
 		o.Classes = []string{engine.ClassDefault}
@@ -78,6 +79,9 @@ func GenSet(t *rapid.T, o SetGenOpts) SetSpec {
 		nobj := rapid.IntRange(0, o.MaxObjs).Draw(t, "nobjs")
 		for i := 0; i < nobj; i++ {
 			idx := rapid.IntRange(0, o.PoolSize-1).Draw(t, "pool")
+			if ph.Class == engine.ClassRemote {
+				idx = engine.NativePoolSize + idx%engine.RemotePoolSize
+			}
 			if used[idx] {
 				continue
 			}
